@@ -481,7 +481,7 @@ class Engine:
     def st_Expr(self, s, st):
         if isinstance(s.value, ast.Constant):
             return [('next', st)]       # docstring
-        if isinstance(s.value, (ast.Yield, ast.YieldFrom, ast.Await)):
+        if isinstance(s.value, (ast.YieldFrom, ast.Await)):
             raise Unsupported(s, 'generator/coroutine')
         return self._expr_then(self.eval(s.value, st), lambda st, v: [('next', st)])
 
@@ -2273,10 +2273,25 @@ class Engine:
     ex_GeneratorExp = ex_ListComp
 
     def ex_Yield(self, e, st):
-        raise Unsupported(e, 'generator')
+        """`yield v` in a generator body: v is appended to the ghost trace, the
+        value sent in is unknown (only when the contract opts in)"""
+        if not self.contract.opts.get('generator_trace'):
+            raise Unsupported(e, 'generator')
+        out = []
+        rs = self.eval(e.value, st) if e.value is not None else [(st, NONE)]
+        for st1, v in rs:
+            if isinstance(v, Raised):
+                out.append((st1, v))
+                continue
+            st1.trace.append(('yield', v))
+            out.append((st1, V('obj', oid='sent!%d' % next(self.counter))))
+        return out
 
-    ex_YieldFrom = ex_Yield
-    ex_Await = ex_Yield
+    def ex_YieldFrom(self, e, st):
+        raise Unsupported(e, 'yield from')
+
+    def ex_Await(self, e, st):
+        raise Unsupported(e, 'await')
 
     # ------------------------------------------------------------------
     def number_loops(self, fdef):
